@@ -14,14 +14,14 @@ func init() {
 		Run: runC17,
 		Explanation: "Every dense page loop of the production program that encodes or schedules page `pgno` (writeLTXFromDB, the growth loop of writeLTXFromWAL) is cut by pgno != ltx.LockPgno(uint32(db.pageSize)) " +
 			"(edge-cut reachability; the comparison is symbolic in the page size, so it holds for every page size); on ltx v0.5.2 itself: Encoder.EncodePage cannot succeed for the lock page, " +
-			"Decoder.DecodeDatabaseTo writes a zeroed page at the lock page number and decodes no page there.  Non-dense page sources are listed with the reason they cannot contain the lock page.",
+			"Decoder.DecodeDatabaseTo writes a zeroed page at the lock page number and decodes no page there.  Non-dense page sources are listed with the reason they cannot contain the lock page. Page-copy provenance (shared with C01): database pages are read at (pgno-1)*pageSize into the buffer that is encoded, WAL pages at their frame offset.",
 		NotDecided:  "byte equality of all other pages (C01); behaviour of SQLite itself around the pending byte",
 		Assumptions: []string{"SQLite never writes the lock-byte page, so it never appears in a WAL frame"},
 	})
 }
 
 func runC17(c *Ctx) {
-	pageCopyRules(c, "R1-dense-loops-skip-lock-page", true)
+	pageCopyRules(c, "R1-dense-loops-skip-lock-page", false)
 	// other counted uint32 loops feeding EncodePage anywhere in production code
 	{
 		const rule = "R1-dense-loops-skip-lock-page"
